@@ -195,7 +195,7 @@ def g_oclass(out, ecode=0):
 def parse_ip16(s):
     """net.ParseIP(strings.TrimSpace(s)).To16() on the clean strings the generator uses"""
     try:
-        ip = ipaddress.ip_address(s.strip(" "))
+        ip = ipaddress.ip_address(s.strip(" \t\r\n\v\f"))
     except ValueError:
         return None
     return (bytes(10) + b"\xff\xff" + ip.packed) if ip.version == 4 else ip.packed
@@ -752,6 +752,47 @@ XFFS = [[], ["198.51.100.7"], ["198.51.100.7, 203.0.113.9"], ["junk"], [""], [",
 REMOTES = ["", "127.0.0.1:999", "[::1]:999", "198.51.100.200:1", "[2001:db8::5]:1", "nonsense", "203.0.113.1", ":80"]
 
 
+def xff_grammar():
+    """the X-Forwarded-For dimension, systematically: (label, header lines).  Items of every class (IPv4, loopback, IPv6, junk,
+    empty, blank) at the last and the second-to-last position, separators with and without optional whitespace, values that
+    are separators only, many items, huge values, and repeated header lines whose last line is of every class."""
+    tok = [("ip4", "198.51.100.7"), ("ip4b", "203.0.113.9"), ("lo", "127.0.0.1"), ("ip6", "2001:db8::1"), ("junk", "junk"),
+           ("empty", ""), ("sp", " "), ("tab", "\t"), ("sps", "   ")]
+    vals = [("1:" + n, t) for n, t in tok]
+    vals += [("2:%s,%s" % (n1, n2), t1 + "," + t2) for n1, t1 in tok for n2, t2 in tok]
+    vals += [("2sep%d" % i, "198.51.100.7" + sep + "203.0.113.9") for i, sep in enumerate((", ", " ,", " , ", ",\t", "\t,\t"))]
+    for n in (1, 2, 3, 7, 50, 1000):
+        vals.append(("commas%d" % n, "," * n))
+        vals.append(("blank-commas%d" % n, " ," * n + " "))
+    for n in (3, 10, 300, 1500):
+        vals.append(("many%d" % n, ",".join("198.51.%d.%d" % (i // 250, i % 250 + 1) for i in range(n))))
+        vals.append(("many%d-trailing-comma" % n, ",".join("198.51.%d.%d" % (i // 250, i % 250 + 1) for i in range(n)) + ","))
+    vals += [("huge-token", "a" * 20000), ("huge-blank", " " * 20000), ("huge-commas", "," * 5000), ("huge-then-ip", "a" * 20000 + ",198.51.100.7"),
+             ("ip-then-huge-blank", "198.51.100.7," + " " * 20000)]
+    out = [(lbl, [v]) for lbl, v in vals]
+    lasts = [("empty", ""), ("sp", " "), ("comma", ","), ("blank-comma", " , "), ("ip4", "203.0.113.9"), ("junk", "junk"), ("two", "junk, 203.0.113.9")]
+    for n, last in lasts:
+        out.append(("lines2:ip4|" + n, ["198.51.100.7", last]))
+        out.append(("lines2:" + n + "|ip4", [last, "198.51.100.7"]))
+        out.append(("lines3:ip4|junk|" + n, ["198.51.100.7", "junk", last]))
+    out.append(("lines40", ["198.51.100.%d" % (i + 1) for i in range(40)]))
+    out.append(("lines40-empty-last", ["198.51.100.%d" % (i + 1) for i in range(40)] + [""]))
+    return out
+
+
+def clen_grammar(n):
+    """the Content-Length / Transfer-Encoding dimension as raw header lines (n: the real body length): absent, empty, signs,
+    blanks, non-decimal, overflow, repeated lines (equal and different), lists, both framings at once"""
+    c = "Content-Length: "
+    return [("absent", []), ("empty", [c]), ("zero", [c + "0"]), ("exact", [c + str(n)]), ("short", [c + str(n - 1)]), ("min-1", [c + "32"]), ("min", [c + "33"]),
+            ("plus", [c + "+" + str(n)]), ("minus", [c + "-1"]), ("blank-padded", [c + "  %d  " % n]), ("hex", [c + hex(n)]), ("alpha", [c + "abc"]),
+            ("exp", [c + "1e2"]), ("overflow", [c + "9" * 30]), ("twice-equal", [c + str(n), c + str(n)]), ("twice-different", [c + str(n), c + str(n - 1)]),
+            ("list-equal", [c + "%d, %d" % (n, n)]), ("longer-than-body", [c + str(n + 50)]),
+            ("te-identity", ["Transfer-Encoding: identity", c + str(n)]), ("te-gzip", ["Transfer-Encoding: gzip"]), ("te-chunked-unframed", ["Transfer-Encoding: chunked"]),
+            ("te-and-cl", ["Transfer-Encoding: chunked", c + str(n)]), ("expect-continue", ["Expect: 100-continue", c + str(n)]),
+            ("lower-case-name", ["content-length: " + str(n)]), ("name-blank", ["Content-Length : " + str(n)])]
+
+
 def gen_api(ctx, corpus, garbage):
     cases = []
 
@@ -787,6 +828,16 @@ def gen_api(ctx, corpus, garbage):
             for remote in REMOTES[:3] + REMOTES[5:6]:
                 add("xff", handler, base, xff=xff, remote=remote, ccgen=1000)
                 add("xff-nopayload", handler, nopl, xff=xff, remote=remote, ccgen=1000)
+        # the header dimension, systematically
+        good1 = pad33(base_wrapper(1, 4, gen=1, rng=fixed_rng("api-hdr"), secret=SECRETS[1]))
+        for lbl, lines in xff_grammar():
+            for remote in ("", "127.0.0.1:999"):
+                add("xff", handler, good1, xff=lines, remote=remote, ccgen=None)
+                cases[-1]["hdr"] = "xff/" + lbl
+        for lbl, lines in clen_grammar(len(good1)):
+            add("clen-header", handler, good1, ccgen=None)
+            cases[-1]["go"].update({"raw_hdr": lines, "no_clen": True, "srv_only": True})
+            cases[-1].update({"hdr": "clen/" + lbl, "nomodel": True})
         for remote in REMOTES:
             add("remote", handler, base, remote=remote, ccgen=None)
         for size in (MAX_BODY - 1, MAX_BODY, MAX_BODY + 1):
@@ -816,12 +867,26 @@ def post_api(ctx, cases, res):
         bad = None
         if r["srv_status"] == 0:
             bad = "the client got no HTTP status line (%s)" % r["srv_err"]
-        elif r["rec_out"] != "ret":
+        elif not g.get("srv_only") and r["rec_out"] != "ret":
             bad = "the handler %s: %s" % ("panicked" if r["rec_out"] == "panic" else "did not return within 10 s", r["rec_detail"][:400])
         if bad:
-            ctx.fail("http:%s/%s" % (g["handler"], c["cls"]), "HTTP %s registration request (%s): %s" % (g["handler"], c["cls"], bad),
-                     {"entry": "api", "case": g, "observed": {x: y for x, y in r.items() if x not in ("view", "sel")}})
-        ctx.count(("api", sorted((x, str(y)) for x, y in g.items())), nontrivial=True, kind="api/%s/%s" % (g["handler"], r["srv_status"]))
+            gs = dict(g)
+            if sum(len(v) for v in g["xff"]) > 300:
+                gs["xff"] = [v if len(v) <= 120 else "%s... (%d bytes: %r repeated)" % (v[:40], len(v), v[:1] if len(set(v)) == 1 else v[:12]) for v in g["xff"]]
+            ctx.fail("http:%s/%s" % (g["handler"], c["cls"]), "HTTP %s registration request (%s%s): %s" % (g["handler"], c["cls"], ", " + c["hdr"] if c.get("hdr") else "", bad),
+                     {"entry": "api", "case": gs, "observed": {x: y for x, y in r.items() if x not in ("view", "sel")}})
+        ctx.count(("api", sorted((x, str(y)) for x, y in g.items())), nontrivial=True, kind="api%s/%s/%s" % ("-hdr" if c.get("hdr") else "", g["handler"], r["srv_status"]))
+        if c.get("nomodel"):
+            # framing headers net/http itself judges (malformed, repeated, conflicting): the handler may never run; the property's own
+            # words are the oracle -- a status line came back
+            continue
+        xbytes, xitems = sum(len(v) for v in g["xff"]), sum(v.count(",") + 1 for v in g["xff"])
+        if g["xff"] and xbytes <= 6000:
+            terms.append("AXffSplit (%s, %s)" % (glist(g["xff"], lambda v: hexs(v.encode("latin1"))), glist(r.get("xff_split") or [], gN)))
+            idx.append(k)
+        if xbytes > 2500 or xitems > 80:
+            # very long values: the model is evaluated on the moderate sizes (Coq's parser is slow on long list literals); crash / status oracle only
+            continue
         body_len = len(g["body"]) // 2
         g_xff = glist([[parse_ip16(it) for it in v.split(",")] for v in g["xff"]], lambda items: glist(items, lambda b: gopt(b, hexs)))
 
@@ -1055,6 +1120,39 @@ def post_stats(ctx, cases, result):
     if res and res[0]["runs"]:
         ctx.sample({"entry": "stats-epoch", "threads": cases[0][1]["threads"], "run": res[0]["runs"][len(res[0]["runs"]) // 2]})
     return terms, idx
+
+
+# ---------------------------------------------------------------- registrar: DNS responder under a burst (child process)
+def gen_burst(ctx, dns_pkts):
+    pk = [{"pkt": p.hex(), "has_plain": pl is not None, "plain": (pl or b"").hex(), "resplen": rl} for _, p, pl, rl in dns_pkts if len(p) <= 1400]
+    return [{"pkts": pk, "repeat": 40 if ctx.tier == "quick" else 300, "seed": ctx.rng.randrange(1 << 30), "probes": 8}]
+
+
+def post_burst(ctx, name, cases, result):
+    rc, out, res = result
+    o = res[0] if res else {}
+    ok = rc == 0 and res is not None and len(res) == 1 and o.get("probes_ok") == cases[0]["probes"] and o.get("loop_ended")
+    if not ok:
+        m = re.search(r"(fatal error: [^\n]*|WARNING: DATA RACE|panic: [^\n]*)", out)
+        if m:
+            why, tail = m.group(1), out[out.index(m.group(1)):][:1500]
+        elif res and o.get("probes_ok", 0) < cases[0]["probes"]:
+            why, tail = "well-formed queries are no longer answered after the burst", str(o)
+        elif res and not o.get("loop_ended"):
+            why, tail = "the receive loop does not end when its socket is closed", str(o)
+        else:
+            why, tail = "no result", out[-1200:]
+        ctx.fail("crash:dns-burst/%s" % re.sub(r"[^a-zA-Z]+", "-", why)[:50].strip("-"),
+                 "DNS registrar ended abnormally or stopped answering (%s) under a burst: every packet of the enumeration (%d datagrams: truncations, "
+                 "pointer loops, reserved labels, EDNS variants, noise-valid registrations) %d times over, shuffled and delivered back to back to the real "
+                 "RecvAndRespond loop, then %d well-formed probe queries [%s]: %s" % (why, len(cases[0]["pkts"]), cases[0]["repeat"], cases[0]["probes"], name, tail),
+                 {"entry": "dns-burst", "lane": name, "seed": cases[0]["seed"], "repeat": cases[0]["repeat"], "packets": len(cases[0]["pkts"]), "observed": o})
+        ctx.count(("burst", name), nontrivial=True, kind="dns-burst/%s/crash" % name)
+        return
+    ctx.cov.setdefault("dns_burst", {})[name] = o
+    if o["fed"] < 1000 or o["responses"] < 200 or o["callbacks"] < 10:
+        ctx.broken("generator-selftest", "the DNS burst lane did too little work: %s" % o)
+    ctx.count(("burst", name), nontrivial=True, kind="dns-burst/%s/clean" % name)
 
 
 # ---------------------------------------------------------------- registrar: DNS processRequest
@@ -1595,7 +1693,7 @@ REQUIRED_KINDS = [
     "dnsproc/success", "dnsproc/fail", "dnsproc/err",
     "worker/announced0", "worker/announced1", "worker/announced2", "worker/err", "worker-share/announced2/shared/peer200",
     "worker-share/announced2/shared/peer500", "worker-share/announced2/shared/peer0", "rawreg/announced", "rawreg/dropped",
-    "seq/ok", "conc/plain/clean", "conc/race/clean",
+    "seq/ok", "conc/plain/clean", "conc/race/clean", "dns-burst/plain/clean", "dns-burst/race/clean", "api-hdr/uni/204", "api-hdr/uni/400", "api-hdr/bidi/200", "api-hdr/bidi/400",
     "dtlsconn/dnat", "dtlsconn/err6", "dtlsconn/err21", "tryfromid/ok", "tryfromid/err", "prefix/newfile/ok10",
     "min/found", "min/err20", "min/err21", "prefix/found", "prefix/err20", "prefix/err21", "prefix/err22", "prefix/err23",
     "obfs4/err20", "obfs4/err21", "obfs4/err24", "markmac/panic", "markmac/found", "markmac/none",
@@ -1666,6 +1764,7 @@ def run_(ctx):
     seqs = gen_seq(ctx)
     conc_cases = gen_conc(ctx)
     ss_cases = gen_stats(ctx)
+    burst_cases = gen_burst(ctx, dns_pkts)
     pf_extra = []
     # cases carried by a replay file (the enumeration itself is deterministic, so re-running the check replays it anyway)
     for f in (ctx.replay or {}).get("failures", []):
@@ -1751,12 +1850,15 @@ def run_(ctx):
                               [{"steps": st} for _, st in seqs], extra=EXPORT_SHIM),
         "conc": lambda: go_run(ctx, "pkg/station/lib", "lib", "station_driver_test.go", "TestVerifC11StationConc", conc_cases, timeout=300),
         "stats": lambda: stats_job(ctx, ss_cases),
+        "burst": lambda: go_run(ctx, "pkg/registrars/dns-registrar/responder", "responder", "responder_driver_test.go", "TestVerifC11ResponderBurst", burst_cases, timeout=300),
         "dtlsconn": lambda: go_run(ctx, "pkg/transports/connecting/dtls", "dtls", "dtls_driver_test.go", "TestVerifC11DtlsConnect", dc_cases),
         "prefix-dump": lambda: go_run(ctx, "pkg/transports/wrapping/prefix", "prefix", "prefix_driver_test.go", "TestVerifC11Prefix", [{"op": "dump"}]),
     }
     results = {}
     if os.environ.get("VERIF_C11_RACE", "1") == "1":
         jobs["conc-race"] = lambda: go_run(ctx, "pkg/station/lib", "lib", "station_driver_test.go", "TestVerifC11StationCon[c]", conc_cases, timeout=600, race=True)
+        jobs["burst-race"] = lambda: go_run(ctx, "pkg/registrars/dns-registrar/responder", "responder", "responder_driver_test.go", "TestVerifC11ResponderBurs[t]", burst_cases,
+                                            timeout=600, race=True)
     with ThreadPoolExecutor(max_workers=12) as ex:
         futs = {k: ex.submit(f) for k, f in jobs.items()}
         # the prefix run proper depends on the dumped table
@@ -1818,6 +1920,9 @@ def run_(ctx):
             terms.append(t)
             origin.append(("stats-epoch", o))
         required += STATS_KINDS
+    post_burst(ctx, "plain", burst_cases, results["burst"])
+    if "burst-race" in results:
+        post_burst(ctx, "race", burst_cases, results["burst-race"])
     post_conc(ctx, "plain", results["conc"])
     if "conc-race" in results:
         post_conc(ctx, "race", results["conc-race"])
@@ -1828,6 +1933,8 @@ def run_(ctx):
     if res:
         add("dns", post_dns(ctx, dns_pkts, res), dns_pkts)
         ctx.sample({"entry": "dns responder", "pkt": dns_pkts[0][1].hex(), "observed": {k: res[0][k] for k in ("p_err", "kind", "rflags")}})
+    if os.environ.get("VERIF_C11_RACE", "1") != "1":
+        required = [k for k in required if "/race/" not in k]
     ctx.require_kinds(required)
     ctx.cov["timing_s"] = TIMES
     if tbl is None:
